@@ -125,6 +125,10 @@ def kwTrue := str "true"
 def kwFalse := str "false"
 def kwNull := str "null"
 
+/- Nesting limit: the Go parser counts the nesting of objects and lists and reports
+   `jsonx.tooDeep` beyond `maxNestingDepth` (10000, regenerated fact
+   `Gen.JsonxVal.maxNestingDepth`, obligation `gen_depth_limit`).  The model has no depth
+   counter: it describes the parser on documents nested less deeply than the limit. -/
 mutual
 /-- parseValue -/
 def parseValue : Nat → PS → V × PS
@@ -196,22 +200,50 @@ end
 
 /-! ### encoder (jsonx/encode.go) -/
 
-def hexVal (cs : Chars) : Nat := cs.foldl (fun v c => v * 16 + digitVal c) 0
-def octVal (cs : Chars) : Nat := cs.foldl (fun v c => v * 8 + digitVal c) 0
 def decVal (cs : Chars) : Nat := cs.foldl (fun v c => v * 10 + digitVal c) 0
 
-/-- `new(big.Int).SetString(lit, 0)` on an integer token literal: `0x` + hex digits,
-    a leading `0` followed by octal digits, decimal otherwise; `none` = not ok -/
+/-- digit value as math/big's `nat.scan` reads it: `0-9`, `a-z` and `A-Z` from 10; anything
+    else is larger than every base -/
+def scanDigit (c : Char) : Nat :=
+  if isDigit c then c.toNat - 48
+  else if isLower c then c.toNat - 87
+  else if isUpper c then c.toNat - 55
+  else 63
+
+/-- the digit loop of `nat.scan` with base argument 0: `_` may separate digits (it is
+    invalid unless the previous character was a digit or the prefix); the loop stops at
+    the first character that is not a digit of base `b`.
+    State: value, digit count, previous character class (`'0'` digit, `'_'` separator,
+    `'.'` other), invalid-separator flag.  Returns them and the unread rest. -/
+def scanDigits (b : Nat) : Chars → Nat → Nat → Char → Bool → Nat × Nat × Char × Bool × Chars
+  | [], v, n, p, i => (v, n, p, i, [])
+  | c :: r, v, n, p, i =>
+    if c = '_' then scanDigits b r v n '_' (i || p ≠ '0')
+    else if scanDigit c ≥ b then (v, n, p, i, c :: r)
+    else scanDigits b r (v * b + scanDigit c) (n + 1) '0' i
+
+/-- end of `nat.scan` + `Int.SetString`: separators must be valid, there must be a digit
+    (a lone octal prefix `0` counts as the number 0), nothing may be left over -/
+def scanFinish (s : Nat × Nat × Char × Bool × Chars) (octalPrefix : Bool) : Option Nat :=
+  if s.2.2.2.1 = true ∨ s.2.2.1 = '_' then none
+  else if s.2.1 = 0 then (if octalPrefix ∧ s.2.2.2.2 = [] then some 0 else none)
+  else if s.2.2.2.2 = [] then some s.1 else none
+
+/-- `new(big.Int).SetString(lit, 0)` on a literal without a sign (the lexer never puts a
+    sign into a token): prefixes `0x/0X` (hex), `0b/0B` (binary), `0o/0O` and a bare
+    leading `0` (octal), decimal otherwise, `_` between digits or after the prefix;
+    `none` = not ok.  Integer tokens of `LexNumber` are only `digits` or `0x`+hex digits;
+    the other forms are modelled so that the leaf contract can be checked on all of them. -/
 def goInt (lit : Chars) : Option Nat :=
   match lit with
   | [] => none
   | c :: r =>
-    if c = '0' ∧ (r.head? = some 'x' ∨ r.head? = some 'X') then
-      let h := r.drop 1
-      if h ≠ [] ∧ h.all isHexDigit then some (hexVal h) else none
-    else if c = '0' ∧ r ≠ [] then
-      if r.all isOctal then some (octVal r) else none
-    else if (c :: r).all isDigit then some (decVal (c :: r)) else none
+    if c = '0' ∧ r ≠ [] then
+      if r.head? = some 'b' ∨ r.head? = some 'B' then scanFinish (scanDigits 2 (r.drop 1) 0 0 '0' false) false
+      else if r.head? = some 'o' ∨ r.head? = some 'O' then scanFinish (scanDigits 8 (r.drop 1) 0 0 '0' false) false
+      else if r.head? = some 'x' ∨ r.head? = some 'X' then scanFinish (scanDigits 16 (r.drop 1) 0 0 '0' false) false
+      else scanFinish (scanDigits 8 r 0 0 '0' false) true
+    else scanFinish (scanDigits 10 (c :: r) 0 0 '.' false) false
 
 def natChars (n : Nat) : Chars := (Nat.repr n).toList
 
